@@ -1026,6 +1026,12 @@ func (f *Frame) runAsserts(ord int, st *State, call *ast.CallExpr) {
 	if f.contract == nil || ord == 0 || st.dead {
 		return
 	}
+	for _, name := range f.contract.Snapshots[ord] {
+		if f.snapshots == nil {
+			f.snapshots = map[string]*State{}
+		}
+		f.snapshots[name] = st.clone()
+	}
 	for i, a := range f.contract.Asserts[ord] {
 		env := f.specEnvAt(st, call.End())
 		goal := env.evalBool(a.E)
